@@ -316,12 +316,14 @@ pub fn run(ctx: &Ctx) -> i32 {
     let g2 = Grid::new(&[("zone", pz), ("azimuth A", paz.len()), ("tilt A", 3), ("azimuth B{same,+90}", 2), ("tilt B", 3), ("order", 2), ("B position{yes,window without,wall without}", 3)]);
     let accs2 = par_fold(g2.size(), |i, acc: &mut Acc| {
         let t = g2.unrank(i);
-        let mut m = scene(zones[t[0]], paz[t[1]], TILTS[t[2]], 0.0, "overhang", 0, 0);
+        // every other pair: both windows set back (each has its own reveal surfaces, whatever the other one lacks)
+        let sb = if (t[2] + t[4] + t[6]) % 2 == 0 { 0.25 } else { 0.0 };
+        let mut m = scene(zones[t[0]], paz[t[1]], TILTS[t[2]], sb, "overhang", 0, 0);
         let az_b = paz[t[1]] + [0.0f32, 90.0][t[3]];
         // (for the turned wall the outline lies away from the local origin and is listed from its third corner)
         let wg = if t[3] == 1 { geom(TILTS[t[4]], az_b, Some([-7.0, -12.0, 12.0]), vec![point![14.0, 13.0], point![10.0, 13.0], point![10.0, 10.0], point![14.0, 10.0]]) } else { geom(TILTS[t[4]], az_b, Some([3.0, -2.0, 12.0]), rect(4.0, 3.0)) };
         m.walls.push(wall("W1", BoundaryType::EXTERIOR, uid("wc"), uid("S1"), None, wg));
-        m.windows.push(window("V1", uid("winc"), uid("W1"), Some([1.0, 0.8]), 1.5, 1.2, 0.0));
+        m.windows.push(window("V1", uid("winc"), uid("W1"), Some([1.0, 0.8]), 1.5, 1.2, sb));
         if (t[1] + t[2] + t[4]) % 2 == 1 {
             // a user value for the obstruction factor of the second window: the computed factor that is reported next to it
             // is still the computed one
@@ -389,7 +391,7 @@ pub fn run(ctx: &Ctx) -> i32 {
     ctx.sample(json!({"part": "scene", "zone": zones[t[0]], "azimuth": AZS[t[1]], "tilt": TILTS[t[2]], "setback_idx": t[3], "obstacle": OBST[t[4]], "fillers": FILLERS[t[5]], "positions": t[6]}));
     ctx.finish(
         "model_checking",
-        &format!("full product zones({}) x window-wall azimuth(8) x tilt{{90,45,0}} x setback{{0,0.2}} x obstacle{{none, facing wall at 1/5/20 m, overhang, big overhang, side fin, half cover, behind, below}} x far-away filler occluders{{0,29,30,31,60}} (crossing the BVH leaf size) x positions{{all, window without, wall without}} (every other scene lists the wall outline from its third corner, the window staying where it is); oracle: brute-force f64 ray/polygon casting from the code's own sample points over the statement's occluder set (reveals recomputed), bands: 1 mm from an outline, |n.d|<0.02, sun within 0.02 of the back-face threshold; F in [lo-0.005, hi+0.005], in [0,1], >= 0.97 when nothing can be hit, diffuse share when hidden at every hour, sample points on the window rectangle in the set-back plane; exact monotonicity when each alphabet obstacle (one as a wall) is added; two-window models over all ordered pairs of wall poses (azimuth(4) x tilt(3) x second azimuth{{same,+90}} x tilt(3) x list order x second window with / without position, every other one with a user obstruction factor next to the computed one, and the factor in EnergyIndicators.props.windows compared with Model::compute_fshobst); shipped models with and without extra obstacles; non-trivial = some ray can be blocked", zones.len()),
+        &format!("full product zones({}) x window-wall azimuth(8) x tilt{{90,45,0}} x setback{{0,0.2}} x obstacle{{none, facing wall at 1/5/20 m, overhang, big overhang, side fin, half cover, behind, below}} x far-away filler occluders{{0,29,30,31,60}} (crossing the BVH leaf size) x positions{{all, window without, wall without}} (every other scene lists the wall outline from its third corner, the window staying where it is); oracle: brute-force f64 ray/polygon casting from the code's own sample points over the statement's occluder set (reveals recomputed), bands: 1 mm from an outline, |n.d|<0.02, sun within 0.02 of the back-face threshold; F in [lo-0.005, hi+0.005], in [0,1], >= 0.97 when nothing can be hit, diffuse share when hidden at every hour, sample points on the window rectangle in the set-back plane; exact monotonicity when each alphabet obstacle (one as a wall) is added; two-window models over all ordered pairs of wall poses (azimuth(4) x tilt(3) x second azimuth{{same,+90}} x tilt(3) x list order x second window with / without position, every other pair with both windows set back 0.25 m, every other one with a user obstruction factor next to the computed one, and the factor in EnergyIndicators.props.windows compared with Model::compute_fshobst); shipped models with and without extra obstacles; non-trivial = some ray can be blocked", zones.len()),
         true,
         json!({"scenes": n}),
     )
